@@ -114,3 +114,54 @@ func CurrentBubble() int64 {
 	}
 	return 0
 }
+
+// WaitAllowMutex is a quiescence wait for the one situation synctest.Wait
+// cannot handle: a goroutine of the bubble is known to wait for a sync.Mutex
+// that another, durably blocked, goroutine holds (a mutex wait is not a
+// durable block, so synctest.Wait would never return, and only the caller can
+// release the holder).  It polls goroutine dumps in real time until every
+// other goroutine of the caller's bubble is either durably blocked or waits
+// in sync.Mutex.Lock / sync.RWMutex.(R)Lock, in two consecutive dumps with the
+// same set of mutex waiters, and returns the number of mutex waiters.  With 0
+// the bubble is quiescent in synctest's sense and synctest.Wait may be called.
+// ok is false if that state was not reached within about ten seconds.
+func WaitAllowMutex() (waiters int, ok bool) {
+	me := GoID()
+	var bubble int64
+	for _, g := range Goroutines() {
+		if g.ID == me {
+			bubble = g.BubbleID
+		}
+	}
+	if bubble == 0 {
+		return 0, false
+	}
+	prev := ""
+	for i := 0; i < 200000; i++ {
+		quiet := true
+		var ids []string
+		for _, g := range Goroutines() {
+			if !g.Bubble || g.BubbleID != bubble || g.ID == me {
+				continue
+			}
+			switch {
+			case strings.Contains(g.State, "(durable)"):
+			case strings.HasPrefix(g.State, "sync.Mutex.Lock"), strings.HasPrefix(g.State, "sync.RWMutex."):
+				ids = append(ids, strconv.FormatInt(g.ID, 10))
+			default:
+				quiet = false
+			}
+		}
+		if quiet {
+			cur := "q:" + strings.Join(ids, ",")
+			if cur == prev {
+				return len(ids), true
+			}
+			prev = cur
+		} else {
+			prev = ""
+		}
+		realNap(50 * 1000)
+	}
+	return 0, false
+}
